@@ -317,6 +317,13 @@ func closedRing(v ssa.Value, from *ssa.BasicBlock, depth int) (bool, string) {
 	return false, "value " + v.Name() + " is not recognisably closed"
 }
 
+func topLevel(f *ssa.Function) *ssa.Function {
+	for f.Parent() != nil {
+		f = f.Parent()
+	}
+	return f
+}
+
 func c13(p *core.Program, r *core.Report) {
 	m := modref(p, r)
 	const r1 = "hull-input-unmodified"
@@ -334,23 +341,13 @@ func c13(p *core.Program, r *core.Report) {
 			r.Bad(r1, short(fn), p.Pos(w.Event.Instr.Pos()), fmt.Sprintf("the hull computation may write its input (%s, %d sites): the caller's coordinates are reordered", w.Target, len(ws)), append([]string{"write: " + p.Pos(w.Event.Instr.Pos()) + " " + w.Event.What}, w.Path...)...)
 		}
 	}
-	strideRule(p, r, "whole-coordinates-carried", []strideTarget{
-		{"xy", "(*convexHullCalculator).getConvexHull", "all"},
-		{"xy", "(*convexHullCalculator).lineOrPolygon", "all"},
-		{"xy", "(*convexHullCalculator).cleanRing", "all"},
-		{"xy", "(*convexHullCalculator).isBetween", "xy"},
-		{"xy", "(*convexHullCalculator).grahamScan", "all"},
-		{"xy", "(*convexHullCalculator).preSort", "all"},
-		{"xy", "(*convexHullCalculator).reduce", "all"},
-		{"xy", "(*convexHullCalculator).padArray3", "all"},
-		{"xy", "(*convexHullCalculator).computeOctRing", "all"},
-		{"xy", "(*convexHullCalculator).computeOctPts", "all"},
+	strideRuleN(p, r, "whole-coordinates-carried", []strideTarget{
+		{"xy", "?(*convexHullCalculator).isBetween", "xy"},
+		{"xy", "recv:convexHullCalculator", "all"},
 		{"sorting", "*", "all"},
 		{"transform", "*", "all"},
-		{"xy/internal", "(*CoordStack).Push", "all"},
-		{"xy/internal", "(*CoordStack).Pop", "all"},
-		{"xy/internal", "(*CoordStack).Peek", "all"},
-	})
+		{"xy/internal", "recv:CoordStack", "all"},
+	}, 12)
 
 	grahamPreconditionRule(p, r, "graham-scan-precondition")
 	const r4 = "fresh-arrays-fully-written"
@@ -398,9 +395,111 @@ func c13(p *core.Program, r *core.Report) {
 						}
 					}
 				}
+				// ... or each coordinate of the array is written by a helper that is handed (array, coordinate offset)
+				// from a stride-stepped loop covering [0, len)
+				for _, c := range eng.Calls(fn) {
+					callee := eng.StaticCallee(c)
+					csi := all[callee]
+					if callee == nil || csi == nil || full {
+						continue
+					}
+					args := c.Common().Args
+					for ai, a := range args {
+						if a != ssa.Value(mk) || ai >= len(callee.Params) {
+							continue
+						}
+						for bi, bArg := range args {
+							if bi >= len(callee.Params) || bi == ai {
+								continue
+							}
+							// the helper stores into its array parameter at (offset parameter + ordinate slot)
+							writes := false
+							for _, s := range csi.Sites {
+								if ia, ok := s.Instr.(*ssa.IndexAddr); ok && s.Store && s.Array == ssa.Value(callee.Params[ai]) && s.Val.K && csi.CoordBaseParam(callee.Params[bi]) {
+									_ = ia
+									writes = true
+								}
+							}
+							if !writes {
+								continue
+							}
+							for _, fp := range si.LoopFootprints() {
+								if fp.OK && ssa.Value(fp.Phi) == bArg && fp.InitBase == nil && fp.A == 0 {
+									if lc, ok := fp.BoundBase.(*ssa.Call); ok && eng.BuiltinName(lc) == "len" && lc.Call.Args[0] == ssa.Value(mk) {
+										full = true
+									}
+								}
+							}
+						}
+					}
+				}
 				r.Check(full, r4, key, p.Pos(mk.Pos()), true, "every slot is written by a loop covering the whole array", "a freshly made coordinate array is not provably overwritten slot by slot: zero-filled padding is read as the coordinate (0,0) and becomes a hull vertex that is not an input point")
 			}
 		}
+	}
+
+	// ---- orientation decisions of the hull are the exact predicate on input coordinates
+	const r5 = "hull-orientation-exact"
+	r.Rule(r5, "every turn decision of the hull code - the radial pre-sort's comparator (NewRadialSorting), the Graham scan, cleanRing/isBetween - is bigxy.OrientationIndex applied to coordinates taken from the point arrays; nothing on the path from getConvexHull calls into xy/internal/robustdeterminate (exact only for the numbers it is handed, i.e. after the rounding of a float64 subtraction), so the pre-sort order cannot disagree with the scan's predicate", 2)
+	{
+		start := []*ssa.Function{}
+		if f := mustFn(p, r, r5, "xy", "(*convexHullCalculator).getConvexHull"); f != nil {
+			start = append(start, f)
+		}
+		if f := mustFn(p, r, r5, "xy", "NewRadialSorting"); f != nil {
+			start = append(start, f)
+			start = append(start, f.AnonFuncs...)
+		}
+		seen := map[*ssa.Function]bool{}
+		var inexact []string
+		orient := map[*ssa.Function]int{}
+		var scan func(f *ssa.Function, root *ssa.Function, depth int)
+		scan = func(f *ssa.Function, root *ssa.Function, depth int) {
+			if f == nil || seen[f] || depth > 5 || len(f.Blocks) == 0 {
+				return
+			}
+			seen[f] = true
+			for _, c := range eng.Calls(f) {
+				g := eng.StaticCallee(c)
+				if g == nil {
+					continue
+				}
+				switch core.FnPkgPath(g) {
+				case mod + "/xy/internal/robustdeterminate":
+					inexact = append(inexact, short(f)+" -> "+g.Name()+" at "+p.Pos(c.Pos()))
+				case mod + "/bigxy":
+					if g.Name() == "OrientationIndex" {
+						orient[topLevel(f)]++
+					}
+				case mod + "/xy":
+					if g.Name() == "OrientationIndex" {
+						orient[topLevel(f)]++
+					} else if strings.Contains(short(g), "convexHullCalculator") || strings.Contains(short(g), "Radial") || g.Parent() != nil {
+						scan(g, root, depth+1)
+					}
+				case mod + "/sorting", mod + "/transform":
+					scan(g, root, depth+1)
+				}
+			}
+			for _, a := range f.AnonFuncs {
+				scan(a, root, depth+1)
+			}
+		}
+		for _, f := range start {
+			root := f
+			if f.Parent() != nil {
+				root = f.Parent()
+			}
+			scan(f, root, 0)
+		}
+		r.Check(len(inexact) == 0, r5, "xy.hull/no-rounded-determinant", "xy/convex_hull.go", true, "no call into robustdeterminate from the hull code", fmt.Sprintf("the hull code takes the sign of a determinant of rounded differences: %v", inexact))
+		nr := 0
+		for root, n := range orient {
+			if root.Name() == "NewRadialSorting" {
+				nr = n
+			}
+		}
+		r.Check(nr >= 1, r5, "xy.NewRadialSorting/comparator", "xy/radial_comparator.go", true, fmt.Sprintf("%d OrientationIndex call(s) in the comparator", nr), "the radial comparator no longer decides the angular order with OrientationIndex")
 	}
 
 	const r3 = "ring-closed-before-test"
